@@ -20,6 +20,11 @@ COMBOS = [
     ('default/mmu', MMU, None),                  # default config
 ]
 BLK = ('BLK8', MMU, modes.MODES['BLK8'][1])
+# an integer config under float casting with skip_checks: refused without the
+# flag, and TANH is not even registered for that algorithm; with the flag the
+# support check must let it through (C11 only)
+SKIP = ('SRQ8a/fc+skip', FCA, dict(copy.deepcopy(modes.MODES['SRQ8a'][1]),
+                                  skip_checks=True))
 COMBOS_T = COMBOS + [BLK,
     ('WO8c', MMU, modes.MODES['WO8c'][1]),
     ('SRQ8a/fc', FCA, modes.MODES['SRQ8a'][1]),  # refused for a specific op
@@ -59,7 +64,8 @@ def events_mini():
 def events(tier, blk=False):
   if tier == 'mini':
     return events_mini()
-  combos = (COMBOS + ([BLK] if blk else [])) if tier == 'quick' else COMBOS_T
+  combos = (COMBOS + ([BLK] if blk else [SKIP])) if tier == 'quick' \
+      else COMBOS_T + ([] if blk else [SKIP])
   ops = OPS_Q if tier == 'quick' else OPS_T
   ev = []
   for rg in REGEXES:
@@ -151,7 +157,10 @@ _check_cache = {}
 
 
 def supported(alg, op, cfg_export):
-  """Observable answer of the library's support check (input of R-recipe)."""
+  """Observable answer of the library's support check (input of R-recipe);
+  skip_checks is defined here, not observed: it bypasses the whole check."""
+  if cfg_export is not None and cfg_export.get('skip_checks'):
+    return True
   k = (alg, op, json.dumps(cfg_export, sort_keys=True))
   if k not in _check_cache:
     L = env.lib()
